@@ -214,16 +214,45 @@ func checkC05c(c c05cCase) (o vstat.Outcome) {
 			dt.mu.Lock()
 			who := dt.serving[a]
 			dt.mu.Unlock()
-			timeout := 120 * time.Millisecond
-			if who == 1 {
-				timeout = 4 * time.Second
-			}
 			if who == 2 {
 				impostor = true
 			}
-			dctx, dcancel := context.WithTimeout(ctx, timeout)
-			lnk, derr := ctrl.DialPeerAddr(dctx, X, &dialer.DialerOpts{Address: a, Backoff: bo()})
-			dcancel()
+			var lnk link.Link
+			var derr error
+			retried := 0
+			if who == 1 {
+				dctx, dcancel := context.WithTimeout(ctx, 4*time.Second)
+				lnk, derr = ctrl.DialPeerAddr(dctx, X, &dialer.DialerOpts{Address: a, Backoff: bo()})
+				dcancel()
+			} else {
+				// X is not there: the request stays alive until two more attempts were seen (10 ms back-off), at most 3 s
+				before := dt.attemptsFor(X, a)
+				started := time.Now()
+				dctx, dcancel := context.WithTimeout(ctx, 3*time.Second)
+				ddone := make(chan struct{})
+				go func() {
+					defer close(ddone)
+					lnk, derr = ctrl.DialPeerAddr(dctx, X, &dialer.DialerOpts{Address: a, Backoff: bo()})
+				}()
+				waitFor(3*time.Second, func() bool {
+					select {
+					case <-ddone:
+						return true
+					default:
+					}
+					return dt.attemptsFor(X, a) >= before+2
+				})
+				// the request lives at least 120 ms (as much as a caller with a short deadline would give it)
+				if rest := 120*time.Millisecond - time.Since(started); rest > 0 {
+					select {
+					case <-ddone:
+					case <-time.After(rest):
+					}
+				}
+				dcancel()
+				<-ddone
+				retried = dt.attemptsFor(X, a) - before
+			}
 			hist = append(hist, fmt.Sprintf("dial(X@%s served by %d)", a, who))
 			if derr == nil && lnk != nil && lnk.GetRemotePeer() != X {
 				o.V = vstat.Viol("dial-credits-wrong-peer", "after %s: DialPeerAddr(X, %s) returned a link with %s", h(), a, lnk.GetRemotePeer())
@@ -236,9 +265,9 @@ func checkC05c(c c05cCase) (o vstat.Outcome) {
 				return
 			}
 			if who != 1 {
-				// keeps retrying while the request is alive: more than one attempt was made in 120 ms (10 ms back-off)
-				if n := dt.attemptsFor(X, a); n < 2 {
-					o.V = vstat.Viol("dial-not-retried", "after %s: X is not reachable at %s; the dial request made %d attempt(s) in 120 ms", h(), a, n)
+				// keeps retrying while the request is alive: at least two attempts while it lived (10 ms back-off, up to 3 s)
+				if retried < 2 {
+					o.V = vstat.Viol("dial-not-retried", "after %s: X is not reachable at %s; only %d dial attempt(s) were made there while the request was kept alive for up to 3 s (%d in the whole history)", h(), a, retried, dt.attemptsFor(X, a))
 					return
 				}
 			}
@@ -299,11 +328,12 @@ func checkC05c(c c05cCase) (o vstat.Outcome) {
 var specC05c = vstat.Spec[c05cCase]{
 	Property: "C05",
 	Rule: "controller layer: the real transport controller over a table-driven dialing transport (address -> serving identity; refuses an answer from another peer, as the QUIC transports do); histories of 3-12 operations bind(address served by X / Y / nobody, the previous holder's link is lost), DialPeerAddr(X, address), lose the link at an address, with or without standing DialTptAddr requests for X at both addresses; then all links are lost and X serves both addresses; " +
-		"oracle: a dial for X only ever returns a link with X, nothing is listed for X or Y that is not theirs; X serving => the dial produces a link (4 s); X absent => the request keeps retrying (>= 2 attempts in 120 ms at 10 ms back-off); in the recovery phase a dial at each address produces a link there; non-trivial = links with X at both addresses at once, or an impostor answered",
-	Assumptions: []string{"10 ms constant back-off is honoured to within 120 ms"},
+		"oracle: a dial for X only ever returns a link with X, nothing is listed for X or Y that is not theirs; X serving => the dial produces a link (4 s); X absent => the request keeps retrying (>= 2 attempts while it is kept alive: until they were seen, at least 120 ms, at most 3 s; 10 ms back-off); in the recovery phase a dial at each address produces a link there; non-trivial = links with X at both addresses at once, or an impostor answered",
+	Assumptions: []string{"a 10 ms constant back-off yields a second attempt within 3 s"},
 	Gen:         genC05c,
 	Check:       checkC05c,
 	Inflight:    true,
+	Confirm:     true,
 }
 
 func TestC05Ctl(t *testing.T)       { vstat.Check(t, specC05c) }
